@@ -142,8 +142,12 @@ if form == 0:
     d.update({K: w, K2: w2}) if K != K2 else d.update({K: w2})
 elif form == 1:
     d.update([(K, w), (K2, w2)])
-else:
+elif form == 2:
     d.update(**{K: w, K2: w2}) if K != K2 else d.update(**{K: w2})
+elif form == 3:
+    d.update({K: w}, **{K2: w2})            # positional mapping and keyword arguments together
+else:
+    d.update([(K, w)], **{K2: w2})
 ref[lk] = w
 ref[lk2] = w2
 return same(d, ref)
@@ -258,7 +262,7 @@ def obligations(tier, seed):
     for op, (extra, pre2, body) in OPS.items():
         for fac in (0, 1):
             if op == "update":
-                for form in range(3):
+                for form in range(5):
                     for kfix in range(4):
                         variants.append((f"{op}{form}.k{kfix}.fac{fac}", extra, pre2, f"FORM = {form}\nKFIX = {kfix}\n", body, fac))
             else:
